@@ -658,221 +658,4 @@ Section RunProofs.
     Forall faithful (fst (run pv pc v fuel p w)) /\ shape (fst (run pv pc v fuel p w)) (snd (run pv pc v fuel p w)).
   Proof.
     intros A p. induction p as [a | l | k IH | k IH | k IH | k IH]; intros w; cbn [run].
-    - cbn [fst snd]. split; [constructor|]. left. split; [constructor|]. eauto.
-    - cbn [fst snd]. split; [constructor|]. right; left. split; [constructor|]. eauto.
-    - destruct (write_cmd v fuel w) as [u w'|e w'|l| |] eqn:E.
-      + specialize (IH w'). destruct (run pv pc v fuel k w') as [tr o]. cbn [fst snd] in *. destruct IH as [F S].
-        split.
-        * constructor; [|exact F]. unfold faithful, call_end_of. cbn. now rewrite E.
-        * apply shape_cons; [reflexivity | exact S].
-      + cbn [fst snd]. split; [constructor; [|constructor]; unfold faithful, call_end_of; cbn; now rewrite E|].
-        apply shape_single; cbn; congruence.
-      + cbn [fst snd]. split; [constructor; [|constructor]; unfold faithful, call_end_of; cbn; now rewrite E|].
-        apply shape_single; cbn; congruence.
-      + cbn [fst snd]. split; [constructor; [|constructor]; unfold faithful, call_end_of; cbn; now rewrite E|].
-        apply shape_single; cbn; congruence.
-      + cbn [fst snd]. split; [constructor; [|constructor]; unfold faithful, call_end_of; cbn; now rewrite E|].
-        apply shape_single; cbn; congruence.
-    - destruct (check_sat_call v fuel w) as [a w'|e w'|l| |] eqn:E.
-      + specialize (IH a w'). destruct (run pv pc v fuel (k a) w') as [tr o]. cbn [fst snd] in *. destruct IH as [F S].
-        split.
-        * constructor; [|exact F]. unfold faithful, call_end_of. cbn. now rewrite E.
-        * apply shape_cons; [reflexivity | exact S].
-      + cbn [fst snd]. split; [constructor; [|constructor]; unfold faithful, call_end_of; cbn; now rewrite E|].
-        apply shape_single; cbn; congruence.
-      + cbn [fst snd]. split; [constructor; [|constructor]; unfold faithful, call_end_of; cbn; now rewrite E|].
-        apply shape_single; cbn; congruence.
-      + cbn [fst snd]. split; [constructor; [|constructor]; unfold faithful, call_end_of; cbn; now rewrite E|].
-        apply shape_single; cbn; congruence.
-      + cbn [fst snd]. split; [constructor; [|constructor]; unfold faithful, call_end_of; cbn; now rewrite E|].
-        apply shape_single; cbn; congruence.
-    - destruct (get_call v fuel pv w) as [a w'|e w'|l| |] eqn:E.
-      + specialize (IH a w'). destruct (run pv pc v fuel (k a) w') as [tr o]. cbn [fst snd] in *. destruct IH as [F S].
-        split.
-        * constructor; [|exact F]. unfold faithful, call_end_of. cbn. now rewrite E.
-        * apply shape_cons; [reflexivity | exact S].
-      + cbn [fst snd]. split; [constructor; [|constructor]; unfold faithful, call_end_of; cbn; now rewrite E|].
-        apply shape_single; cbn; congruence.
-      + cbn [fst snd]. split; [constructor; [|constructor]; unfold faithful, call_end_of; cbn; now rewrite E|].
-        apply shape_single; cbn; congruence.
-      + cbn [fst snd]. split; [constructor; [|constructor]; unfold faithful, call_end_of; cbn; now rewrite E|].
-        apply shape_single; cbn; congruence.
-      + cbn [fst snd]. split; [constructor; [|constructor]; unfold faithful, call_end_of; cbn; now rewrite E|].
-        apply shape_single; cbn; congruence.
-    - destruct (get_call v fuel pc w) as [a w'|e w'|l| |] eqn:E.
-      + specialize (IH a w'). destruct (run pv pc v fuel (k a) w') as [tr o]. cbn [fst snd] in *. destruct IH as [F S].
-        split.
-        * constructor; [|exact F]. unfold faithful, call_end_of. cbn. now rewrite E.
-        * apply shape_cons; [reflexivity | exact S].
-      + cbn [fst snd]. split; [constructor; [|constructor]; unfold faithful, call_end_of; cbn; now rewrite E|].
-        apply shape_single; cbn; congruence.
-      + cbn [fst snd]. split; [constructor; [|constructor]; unfold faithful, call_end_of; cbn; now rewrite E|].
-        apply shape_single; cbn; congruence.
-      + cbn [fst snd]. split; [constructor; [|constructor]; unfold faithful, call_end_of; cbn; now rewrite E|].
-        apply shape_single; cbn; congruence.
-      + cbn [fst snd]. split; [constructor; [|constructor]; unfold faithful, call_end_of; cbn; now rewrite E|].
-        apply shape_single; cbn; congruence.
-  Qed.
-
-  (** a call that did not succeed is the last call, and its failure IS the result of the run *)
-  Lemma run_first_failure_lemma : forall A (p : prog A) w ev,
-    In ev (fst (run pv pc v fuel p w)) -> ev_end ev <> COk ->
-    end_of (snd (run pv pc v fuel p w)) = ev_end ev.
-  Proof.
-    intros A p w ev Hin Hbad.
-    destruct (run_shape_lemma A p w) as [_ [[F _]|[[F _]|(tr0 & e & Etr & F & N & Q)]]].
-    - rewrite Forall_forall in F. exfalso. apply Hbad. apply F. exact Hin.
-    - rewrite Forall_forall in F. exfalso. apply Hbad. apply F. exact Hin.
-    - rewrite Etr in Hin. apply in_app_or in Hin. destruct Hin as [Hin|[<-|[]]].
-      + rewrite Forall_forall in F. exfalso. apply Hbad. apply F. exact Hin.
-      + symmetry. exact Q.
-  Qed.
-
-  Lemma run_propagates_lemma : forall A (p : prog A) w ev e,
-    In ev (fst (run pv pc v fuel p w)) -> ev_end ev = CErr e ->
-    exists w', snd (run pv pc v fuel p w) = Err e w'.
-  Proof.
-    intros A p w ev e Hin He.
-    assert (Q : end_of (snd (run pv pc v fuel p w)) = CErr e).
-    { rewrite <- He. apply run_first_failure_lemma; [exact Hin | congruence]. }
-    destruct (snd (run pv pc v fuel p w)) as [a w'|e' w'|l| |]; cbn in Q; try discriminate.
-    injection Q as ->. eauto.
-  Qed.
-
-  Lemma run_ok_all_ok_lemma : forall A (p : prog A) w a w',
-    snd (run pv pc v fuel p w) = Ok a w' -> Forall ev_ok (fst (run pv pc v fuel p w)).
-  Proof.
-    intros A p w a w' H.
-    destruct (run_shape_lemma A p w) as [_ [[F _]|[[F (l & E)]|(tr0 & e & Etr & F & N & Q)]]].
-    - exact F.
-    - congruence.
-    - rewrite H in Q. cbn in Q. congruence.
-  Qed.
-
-  (** every successful check-sat of a run rests on one exact line `sat` / `unsat` *)
-  Lemma run_checksat_exact_lemma : forall A (p : prog A) w ev,
-    In ev (fst (run pv pc v fuel p w)) -> ev_kind ev = KCheckSat -> ev_end ev = COk ->
-    exists w1 l rest, write_cmd v fuel (ev_before ev) = Ok tt w1 /\ w_lines w1 = l :: rest
-                      /\ (trim l = "sat" \/ trim l = "unsat").
-  Proof.
-    intros A p w ev Hin Hk Hok.
-    destruct (run_shape_lemma A p w) as [F _]. rewrite Forall_forall in F. specialize (F ev Hin).
-    unfold faithful, call_end_of in F. rewrite Hk, Hok in F.
-    unfold check_sat_call in F.
-    destruct (write_cmd v fuel (ev_before ev)) as [[] w1|e w1|l| |] eqn:EW; cbn in F; try discriminate.
-    destruct (read_sat_response v fuel w1) as [a w2|e w2|l| |] eqn:ER; cbn in F; try discriminate.
-    apply sat_only_on_exact_lemma in ER. destruct ER as (l & rest & E1 & _ & _ & [[_ T]|[_ T]]); eauto 8.
-  Qed.
-
-  (** lines are only consumed by a run *)
-  Lemma run_lines_le : forall A (p : prog A) w,
-    match snd (run pv pc v fuel p w) with
-    | Ok _ w' | Err _ w' => length (w_lines w') <= length (w_lines w)
-    | _ => True
-    end.
-  Proof.
-    intros A p. induction p as [a | l | k IH | k IH | k IH | k IH]; intros w; cbn [run].
-    - cbn. lia.
-    - exact I.
-    - pose proof (write_cmd_lines_le v fuel w) as T.
-      destruct (write_cmd v fuel w) as [u w'|e w'|l| |]; try exact I; [|exact T].
-      specialize (IH w'). destruct (run pv pc v fuel k w') as [tr o]. cbn [snd] in *.
-      destruct o; try exact I; lia.
-    - pose proof (check_sat_call_lines_le v fuel w) as T.
-      destruct (check_sat_call v fuel w) as [a w'|e w'|l| |]; try exact I; [|exact T].
-      specialize (IH a w'). destruct (run pv pc v fuel (k a) w') as [tr o]. cbn [snd] in *.
-      destruct o; try exact I; lia.
-    - pose proof (get_call_lines_le v fuel pv w) as T.
-      destruct (get_call v fuel pv w) as [a w'|e w'|l| |]; try exact I; [|exact T].
-      specialize (IH a w'). destruct (run pv pc v fuel (k a) w') as [tr o]. cbn [snd] in *.
-      destruct o; try exact I; lia.
-    - pose proof (get_call_lines_le v fuel pc w) as T.
-      destruct (get_call v fuel pc w) as [a w'|e w'|l| |]; try exact I; [|exact T].
-      specialize (IH a w'). destruct (run pv pc v fuel (k a) w') as [tr o]. cbn [snd] in *.
-      destruct o; try exact I; lia.
-  Qed.
-End RunProofs.
-
-(** with the repaired reader no client program can spin, whatever the stream *)
-Lemma run_fix_total : forall pv pc fuel A (p : prog A) w,
-  length (w_lines w) <= fuel -> snd (run pv pc Fix fuel p w) <> OutOfFuel.
-Proof.
-  intros pv pc fuel A p. induction p as [a | l | k IH | k IH | k IH | k IH]; intros w H; cbn [run]; try discriminate.
-  - pose proof (write_cmd_fix_total fuel w H) as T. pose proof (write_cmd_lines_le Fix fuel w) as L.
-    destruct (write_cmd Fix fuel w) as [u w'|e w'|l| |]; try discriminate; [|congruence].
-    specialize (IH w'). destruct (run pv pc Fix fuel k w') as [tr o]. cbn [snd] in *. apply IH. lia.
-  - pose proof (check_sat_call_fix_total fuel w H) as T. pose proof (check_sat_call_lines_le Fix fuel w) as L.
-    destruct (check_sat_call Fix fuel w) as [a w'|e w'|l| |]; try discriminate; [|congruence].
-    specialize (IH a w'). destruct (run pv pc Fix fuel (k a) w') as [tr o]. cbn [snd] in *. apply IH. lia.
-  - pose proof (get_call_fix_total fuel pv w H) as T. pose proof (get_call_lines_le Fix fuel pv w) as L.
-    destruct (get_call Fix fuel pv w) as [a w'|e w'|l| |]; try discriminate; [|congruence].
-    specialize (IH a w'). destruct (run pv pc Fix fuel (k a) w') as [tr o]. cbn [snd] in *. apply IH. lia.
-  - pose proof (get_call_fix_total fuel pc w H) as T. pose proof (get_call_lines_le Fix fuel pc w) as L.
-    destruct (get_call Fix fuel pc w) as [a w'|e w'|l| |]; try discriminate; [|congruence].
-    specialize (IH a w'). destruct (run pv pc Fix fuel (k a) w') as [tr o]. cbn [snd] in *. apply IH. lia.
-Qed.
-
-Lemma session_fix_total : forall pv pc fuel A (p : prog A) w,
-  length (w_lines w) <= fuel -> session pv pc Fix fuel p w <> OutOfFuel.
-Proof.
-  intros pv pc fuel A p w H. unfold session.
-  pose proof (run_fix_total pv pc fuel A p w H) as T.
-  pose proof (run_lines_le pv pc Fix fuel A p w) as L.
-  destruct (snd (run pv pc Fix fuel p w)) as [a w'|e w'|l| |]; cbn [shutdown]; try discriminate; [| |congruence].
-  - pose proof (write_cmd_fix_total fuel w') as T2.
-    destruct (write_cmd Fix fuel w'); try discriminate. exfalso. apply T2; [lia | reflexivity].
-  - pose proof (write_cmd_fix_total fuel w') as T2.
-    destruct (write_cmd Fix fuel w'); try discriminate. exfalso. apply T2; [lia | reflexivity].
-Qed.
-
-(** a session ends with a value only if the client's run did, with the same value *)
-Lemma session_ok_inv : forall pv pc v fuel A (p : prog A) w a w',
-  session pv pc v fuel p w = Ok a w' -> exists w'', snd (run pv pc v fuel p w) = Ok a w''.
-Proof.
-  intros pv pc v fuel A p w a w' H. unfold session in H.
-  destruct (snd (run pv pc v fuel p w)) as [a0 w0|e w0|l| |]; cbn [shutdown] in H; try discriminate.
-  - destruct (write_cmd v fuel w0); try discriminate; injection H as <- _; eauto.
-  - destruct (write_cmd v fuel w0); discriminate.
-Qed.
-
-(** ... and an error of the client's run is the error of the session (unless shutting down itself
-    panics, blocks or spins) *)
-Lemma session_err_inv : forall pv pc v fuel A (p : prog A) w e w0,
-  snd (run pv pc v fuel p w) = Err e w0 ->
-  match session pv pc v fuel p w with
-  | Ok _ _ => False
-  | Err e' _ => e' = e
-  | _ => True
-  end.
-Proof.
-  intros pv pc v fuel A p w e w0 H. unfold session. rewrite H. cbn [shutdown].
-  destruct (write_cmd v fuel w0); auto.
-Qed.
-
-Lemma session_propagates_lemma : forall pv pc v fuel A (p : prog A) w ev e,
-  In ev (fst (run pv pc v fuel p w)) -> ev_end ev = CErr e ->
-  match session pv pc v fuel p w with
-  | Ok _ _ => False
-  | Err e' _ => e' = e
-  | _ => True
-  end.
-Proof.
-  intros pv pc v fuel A p w ev e Hin He.
-  destruct (run_propagates_lemma pv pc v fuel A p w ev e Hin He) as [w0 H].
-  eapply session_err_inv; eauto.
-Qed.
-
-Lemma session_verdict_intact_lemma : forall pv pc v fuel A (p : prog A) w a w',
-  session pv pc v fuel p w = Ok a w' ->
-  Forall ev_ok (fst (run pv pc v fuel p w))
-  /\ forall ev, In ev (fst (run pv pc v fuel p w)) -> ev_kind ev = KCheckSat ->
-       exists w1 l rest, write_cmd v fuel (ev_before ev) = Ok tt w1 /\ w_lines w1 = l :: rest
-                         /\ (trim l = "sat" \/ trim l = "unsat").
-Proof.
-  intros pv pc v fuel A p w a w' H.
-  destruct (session_ok_inv _ _ _ _ _ _ _ _ _ H) as [w'' R].
-  pose proof (run_ok_all_ok_lemma pv pc v fuel A p w a w'' R) as F.
-  split; [exact F|].
-  intros ev Hin Hk. rewrite Forall_forall in F.
-  eapply run_checksat_exact_lemma; eauto. apply F. exact Hin.
-Qed.
+    - split; [constructor|]. left. split; [constructor|]. eauto. Show.
